@@ -26,5 +26,8 @@ def run(ctx, pid="C08"):
         finally:
             P.Prims.register_defaults = orig
         n += len(obs)
+    from ..pyvc import conformance
+
+    conformance.add_to_ctx(ctx, ["unravel_index"])
     return (f"_collapse_blocks_along_axes (2 and 3 reduced axes, 0 and 1 kept dimensions, symbolic block counts): {n} obligations: rank preserved (one unit axis per reduced axis but the last), "
             "kept chunks passed through, every key written reads an existing block of the input.")
